@@ -142,6 +142,23 @@ def requests(seed=1, size="quick"):
                 for rd, wd in ((2, 2), (0, 0.5), (5, 1)):
                     out.append(("optinf %d %d %s %s %s %s" % (lmax, mmax, fr(uf), fr(ub), fr(rd), fr(wd)),
                                 lambda lmax=lmax, mmax=mmax, uf=uf, ub=ub, rd=rd, wd=wd: tabinf(lmax, mmax, uf, ub, rd, wd)))
+    hrm = sys.modules.get("checkpoint_schedules.hrevolve_sequences.hrevolve")
+
+    def ers(v):
+        return "inf" if v == float("inf") else fr(v)
+
+    def thopt(lmax, c0, c1, w0, w1, r0, r1, ub, uf):
+        try:
+            a, b = hrm.get_hopt_table(lmax, (c0, c1), (w0, w1), (r0, r1), ub, uf)
+            sh = lambda t: "|".join(";".join(",".join(ers(v) for v in row) for row in lvl) for lvl in t)   # noqa: E731
+            return sh(a) + " # " + sh(b)
+        except Exception as e:   # noqa: BLE001
+            return "raise:" + type(e).__name__
+    for lmax in (0, 1, 2, 4, 7, 10):
+        for c0, c1 in ((1, 0), (1, 1), (2, 1), (1, 3), (3, 2), (0, 1)):
+            for (w1, r1, ub, uf) in ((2, 2, 1, 1), (0.5, 0, 1, 3), (5, 1, 2, 0.5), (0, 0, 1, 1)):
+                out.append(("hopt %d %d %d 0 %s 0 %s %s %s" % (lmax, c0, c1, fr(w1), fr(r1), fr(ub), fr(uf)),
+                            lambda lmax=lmax, c0=c0, c1=c1, w1=w1, r1=r1, ub=ub, uf=uf: thopt(lmax, c0, c1, 0, w1, 0, r1, ub, uf)))
     for x in range(0, 8):
         for y in range(-1, 8):
             out.append(("beta %d %d" % (x, y), lambda x=x, y=y: _val(lambda: bf.beta(x, y))))
